@@ -377,6 +377,14 @@ def St.detachAll (s : St) : List Nat → St
 def sameLocalIds (e : Node) (name : Str) : List Nat :=
   (e.attrs.filter fun a => match a.kind with | .attr n _ => localName n == localName name | _ => false).map (·.id)
 
+/-- ... looked up with the name exactly AS SUPPLIED (getAttributeNode, removeAttribute do not take a prefix off the
+    name they are given, so a qualified name matches nothing: part of the recorded finding `attr-local-part`) -/
+def findAttrRaw (e : Node) (name : Str) : Option Node :=
+  e.attrs.find? fun a => match a.kind with | .attr n _ => localName n == name | _ => false
+
+def rawLocalIds (e : Node) (name : Str) : List Nat :=
+  (e.attrs.filter fun a => match a.kind with | .attr n _ => localName n == name | _ => false).map (·.id)
+
 def step (s : St) : Op → St × Res
   | .createElement name =>
       if validQName name then let (s', i) := s.fresh (.elem name) []; ({ s' with handles := s'.handles ++ [some i] }, .node i)
@@ -440,7 +448,7 @@ def step (s : St) : Op → St × Res
   | .removeAttribute e name =>
       match s.find e with
       | some en =>
-        (s.detachAll (sameLocalIds en name), .ok)
+        (s.detachAll (rawLocalIds en name), .ok)
       | none => (s, .err .notFound)
   | .setAttributeNode e a =>
       match s.find e, s.find a with
@@ -474,7 +482,7 @@ def step (s : St) : Op → St × Res
       else (s, .err .notFound)
   | .getAttributeNode e name =>
       match s.find e with
-      | some en => (match findAttr en name with
+      | some en => (match findAttrRaw en name with
           | some o => ({ s with handles := s.handles ++ [some o.id] }, .node o.id)
           | none => ({ s with handles := s.handles ++ [none] }, .none_))
       | none => ({ s with handles := s.handles ++ [none] }, .err .notFound)
